@@ -296,6 +296,78 @@ fn do_read(r: i64, loc: &Loc, hdr: bool) -> Value {
     }
 }
 
+/// Reference: what a PLAIN parse (no codec layer) of `content` gives, computed without ironbeam
+/// on a deliberately small subset of the formats; `None` = content outside that subset (the
+/// case is then dropped as ["invalid"]; the generator never produces such content).
+///  JSONL: `BufRead::lines` + blank lines skipped + serde_json per line; the range reader with
+///         hdr=true skips line 0 (which still has to be UTF-8).
+///  CSV:   lines of `key,int` without quotes / CR / empty lines; hdr=true: the first line is a
+///         header (not parsed, but every later record must have as many fields as it has).
+fn ref_parse(r: i64, hdr: bool, content: &[u8]) -> Option<Value> {
+    let mut lines: Vec<&[u8]> = content.split(|&b| b == b'\n').collect();
+    if lines.last().is_some_and(|l| l.is_empty()) {
+        lines.pop();
+    }
+    match rfmt(r) {
+        Fmt::Jsonl | Fmt::Cloud => {
+            if hdr && r != R_JSONL_RANGE {
+                return None;
+            }
+            if content.contains(&b'\r') {
+                return None;
+            }
+            let mut out = Vec::new();
+            let mut strs = Vec::new();
+            for l in &lines {
+                match std::str::from_utf8(l) {
+                    Ok(t) => strs.push(t),
+                    Err(_) => return Some(json!(["err"])),
+                }
+            }
+            for (i, t) in strs.iter().enumerate() {
+                if (hdr && i == 0) || t.trim().is_empty() {
+                    continue;
+                }
+                match serde_json::from_str::<Rec>(t) {
+                    Ok(rec) => out.push((rec.k, rec.v)),
+                    Err(_) => return Some(json!(["err"])),
+                }
+            }
+            Some(json!(["ok", recs_json(&out)]))
+        }
+        Fmt::Csv => {
+            if content.contains(&b'\r') || content.contains(&b'"') || lines.iter().any(|l| l.is_empty())
+            {
+                return None;
+            }
+            let nf = |l: &[u8]| l.split(|&b| b == b',').count();
+            let mut out = Vec::new();
+            let first = lines.first().map(|l| nf(l));
+            for (i, l) in lines.iter().enumerate() {
+                if hdr && i == 0 {
+                    continue;
+                }
+                if Some(nf(l)) != first {
+                    return Some(json!(["err"]));
+                }
+                let f: Vec<&[u8]> = l.split(|&b| b == b',').collect();
+                if f.len() != 2 {
+                    return Some(json!(["err"]));
+                }
+                let (Ok(k), Ok(v)) = (std::str::from_utf8(f[0]), std::str::from_utf8(f[1])) else {
+                    return Some(json!(["err"]));
+                };
+                let Ok(v) = v.parse::<i64>() else {
+                    return Some(json!(["err"]));
+                };
+                out.push((k.to_string(), v));
+            }
+            Some(json!(["ok", recs_json(&out)]))
+        }
+        Fmt::Parquet => None,
+    }
+}
+
 fn name_of(v: &Value) -> String {
     v.as_str().expect("name").to_string()
 }
@@ -378,10 +450,18 @@ fn run(kind: &str, input: &Value) -> Value {
                 }
                 _ => return json!(["invalid"]),
             };
+            // compressed bytes are not records in any plain reading
+            let reference = if origin[0] == "enc" {
+                json!(["err"])
+            } else if let Some(v) = ref_parse(r, hdr, &content) {
+                v
+            } else {
+                return json!(["invalid"]);
+            };
             if rfmt(r) == Fmt::Cloud {
                 st.put_object(BUCKET, &name, &content).unwrap();
                 let ro = do_read(r, &Loc::Cloud(&st, &name), hdr);
-                json!([head(&content), ro])
+                json!([head(&content), ro, reference])
             } else {
                 if name.contains('/') {
                     return json!(["invalid"]);
@@ -389,7 +469,7 @@ fn run(kind: &str, input: &Value) -> Value {
                 let target = cd.0.join("t").join(&name);
                 std::fs::write(&target, &content).expect("write raw file");
                 let ro = do_read(r, &Loc::File(&target), hdr);
-                json!([head(&content), ro])
+                json!([head(&content), ro, reference])
             }
         }
         _ => json!(["bad-kind"]),
@@ -465,27 +545,13 @@ fn jsonl_text(rs: &[Row]) -> Vec<u8> {
     s.into_bytes()
 }
 
-fn emit_lit(em: &mut Emitter, r: i64, name: &str, content: &[u8], hdr: bool, ev: Value,
-            tags: &[&str]) {
+fn emit_lit(em: &mut Emitter, r: i64, name: &str, content: &[u8], hdr: bool, tags: &[&str]) {
     em.case(
         "raw",
-        json!([r, name, ["lit", {"bytes": content}], hdr, ev, ["err"]]),
+        json!([r, name, ["lit", {"bytes": content}], hdr]),
         !content.is_empty(),
         tags,
     );
-}
-
-/// what a plain (no codec) parse of `prefix ++ body(rs)` returns, by construction:
-///  * CSV, hdr=true, prefix = one line without '"' ending in "\n": the line is skipped -> rs
-///  * JSONL range reader, hdr=true ("skip line 0"), same prefix: rs if the line is UTF-8 else err
-///  * other JSONL readers: the first line is not JSON -> err
-fn verbatim_expect(r: i64, hdr: bool, line_utf8: bool, rs: &[Row]) -> Value {
-    let ok = json!(["ok", recs_json(rs)]);
-    match rfmt(r) {
-        Fmt::Csv if hdr => ok,
-        Fmt::Jsonl if r == R_JSONL_RANGE && hdr && line_utf8 => ok,
-        _ => json!(["err"]),
-    }
 }
 
 fn generate(seed: u64, tier: Tier, em: &mut Emitter) {
@@ -570,39 +636,37 @@ fn generate(seed: u64, tier: Tier, em: &mut Emitter) {
         if rfmt(r) == Fmt::Parquet {
             continue;
         }
-        let text = if rfmt(r) == Fmt::Csv { csv_text(&body) } else { jsonl_text(&body) };
+        let csv = rfmt(r) == Fmt::Csv;
+        let text = if csv { csv_text(&body) } else { jsonl_text(&body) };
+        // readers that can skip the first line: CSV has_headers, JSONL range reader from line 1
+        let skip = csv || r == R_JSONL_RANGE;
         for name in raw_names {
-            // empty file
-            emit_lit(em, r, name, &[], false, json!(["ok", []]), &["raw", "empty-file"]);
-            // plain text, no prefix
-            emit_lit(em, r, name, &text, false, json!(["ok", recs_json(&body)]), &["raw", "plain"]);
+            emit_lit(em, r, name, &[], false, &["raw", "empty-file"]);
+            emit_lit(em, r, name, &text, false, &["raw", "plain"]);
             for sig in SIGS.iter() {
-                // every prefix of the signature (proper ones, the full one, full + junk)
+                // every prefix of the signature: proper ones, the full one, full + one more byte
                 for len in 1..=sig.len() + 1 {
-                    let mut p: Vec<u8> =
+                    let p: Vec<u8> =
                         if len <= sig.len() { sig[..len].to_vec() } else { [sig, &b"9"[..]].concat() };
-                    let line_utf8 = std::str::from_utf8(&p).is_ok();
-                    // (a) the prefix alone: a file shorter than / equal to the magic; read as
-                    //     "header only" where the reader can skip the first line -> no records
-                    let hdr = rfmt(r) == Fmt::Csv || r == R_JSONL_RANGE;
-                    let ev0 = verbatim_expect(r, hdr, line_utf8, &[]);
-                    emit_lit(em, r, name, &p, hdr, ev0, &["raw", "prefix-alone"]);
-                    // (b) prefix, newline, records; read skipping the first line where possible
-                    p.push(b'\n');
-                    p.extend_from_slice(&text);
-                    let ev = verbatim_expect(r, hdr, line_utf8, &body);
-                    emit_lit(em, r, name, &p, hdr, ev, &["raw", "prefix-line"]);
+                    // (a) the prefix alone: a file shorter than / as long as the magic
+                    emit_lit(em, r, name, &p, skip, &["raw", "prefix-alone"]);
+                    // (b) first line = prefix (CSV: a two-field header `prefix,h`), then records
+                    let mut q = p.clone();
+                    if csv {
+                        q.extend_from_slice(b",h");
+                    }
+                    q.push(b'\n');
+                    q.extend_from_slice(&text);
+                    emit_lit(em, r, name, &q, skip, &["raw", "prefix-line"]);
                 }
             }
         }
         // text-expressible prefixes directly followed by text (CSV first field)
-        if rfmt(r) == Fmt::Csv {
+        if csv {
             for key in csv_keys {
                 let rs = rows(&[key, "CA"]);
                 for name in ["w.csv", "w"] {
-                    // a full "BZh" start is a real signature: the plain parse is still `rs`
-                    emit_lit(em, r, name, &csv_text(&rs), false, json!(["ok", recs_json(&rs)]),
-                             &["raw", "csv-first-field"]);
+                    emit_lit(em, r, name, &csv_text(&rs), false, &["raw", "csv-first-field"]);
                 }
             }
         }
@@ -612,16 +676,17 @@ fn generate(seed: u64, tier: Tier, em: &mut Emitter) {
             if wfmt(w) != rfmt(r) {
                 continue;
             }
-            if !thorough && !(w == W_JSONL_VEC || w == W_JSONL_PAR || w == W_CSV_VEC
-                              || w == W_CSV_PAR || w == W_CLOUD_JSONL) {
+            if !thorough
+                && !(w == W_JSONL_VEC || w == W_JSONL_PAR || w == W_CSV_VEC || w == W_CSV_PAR
+                    || w == W_CLOUD_JSONL)
+            {
                 continue;
             }
             for encname in ["c.gz", "c.zst", "c.bz2", "c.xz", "c.GZIP", "c.zstd", "c.bzip2"] {
                 for name in raw_names {
                     em.case(
                         "raw",
-                        json!([r, name, ["enc", w, encname, recs_json(&body), 2], false, ["err"],
-                               ["ok", recs_json(&body)]]),
+                        json!([r, name, ["enc", w, encname, recs_json(&body), 2], false]),
                         true,
                         &["raw", "compressed"],
                     );
@@ -683,23 +748,27 @@ fn generate(seed: u64, tier: Tier, em: &mut Emitter) {
         let shards = if rng.chance(1, 4) { None } else { Some(rng.range(1, 4) as usize) };
         emit_rt(em, w, r, &name, &rs, shards, true, &["random"]);
     }
-    // random raw prefixes over the signature bytes, CSV header-skip readers + JSONL range reader
-    let sig_bytes: Vec<u8> = SIGS.iter().flat_map(|s| s.iter().copied()).chain([b'9', b'B']).collect();
+    // random raw first lines over the signature bytes, for the readers that can skip line 0
+    let sig_bytes: Vec<u8> =
+        SIGS.iter().flat_map(|s| s.iter().copied()).chain([b'9', b'B']).collect();
     let m = if thorough { 4000 } else { 500 };
     for _ in 0..m {
-        let r = *rng.pick(&[R_CSV_VEC, R_CSV_RANGE, R_PC_CSV, R_PC_CSV_GLOB, R_CSV_STREAM_SEQ,
-                            R_CSV_STREAM_PAR, R_JSONL_RANGE]);
+        let r = *rng.pick(&[
+            R_CSV_VEC, R_CSV_RANGE, R_PC_CSV, R_PC_CSV_GLOB, R_CSV_STREAM_SEQ, R_CSV_STREAM_PAR,
+            R_JSONL_RANGE,
+        ]);
         let len = rng.range(1, 7) as usize;
         let base = *rng.pick(&SIGS);
         let mut p: Vec<u8> = (0..len)
             .map(|i| if i < base.len() && rng.chance(4, 5) { base[i] } else { *rng.pick(&sig_bytes) })
             .collect();
-        let line_utf8 = std::str::from_utf8(&p).is_ok();
+        if rfmt(r) == Fmt::Csv {
+            p.extend_from_slice(b",h");
+        }
         p.push(b'\n');
         p.extend_from_slice(&if rfmt(r) == Fmt::Csv { csv_text(&body) } else { jsonl_text(&body) });
         let name = *rng.pick(&["q.dat", "q", "q.csv", "q.gz", "q.bz2"]);
-        let ev = verbatim_expect(r, true, line_utf8, &body);
-        emit_lit(em, r, name, &p, true, ev, &["raw", "random-prefix"]);
+        emit_lit(em, r, name, &p, true, &["raw", "random-prefix"]);
     }
 }
 
